@@ -1,2 +1,16 @@
-(* C14 uses the same case record and checks as C09 (the cut point is a field of the case). *)
+(* C14 uses the same case record and checks as C09 (the cut point is a field of the case) for the CAMx formats, and
+   Corr/BpchPrefix.v (built on the C18 case record) for GEOS-Chem bpch prefixes. Corr/C09.v itself is untouched:
+   the CAMx terms are wrapped with `Old`, bpch terms use `BP`; Model.Bpch is only Required, never Imported here
+   (it shares names with Model.Uamiv). *)
 From PNC Require Export Corr.C09.
+Require PNC.Corr.BpchPrefix.
+
+Inductive case14 :=
+| Old (c : Corr.C09.case_t)
+| BP (c : PNC.Corr.BpchPrefix.bcase).
+
+Definition check (c : case14) : verdict :=
+  match c with
+  | Old c => Corr.C09.check c
+  | BP c => PNC.Corr.BpchPrefix.bcheck c
+  end.
